@@ -13,6 +13,18 @@ class NeedIntMode(Exception):
     """raised in bit-vector mode when an operation needs mathematical integers / reals"""
 
 
+class _Guarded(list):
+    """list of definedness conditions; each appended condition is weakened by the current guard (path condition)"""
+
+    def __init__(self, sem):
+        super().__init__()
+        self._sem = sem
+
+    def append(self, cond):
+        g = self._sem.guard
+        super().append(cond if g is None or z3.is_true(g) else z3.Implies(g, cond))
+
+
 class Sem:
     """int_mode 'int': INTEGER -> z3 Int (magnitudes of all intermediate integer values are tracked in ``max_mag``).
     int_mode 'bv': INTEGER -> signed BitVec(width); sound only if width > log2(max_mag)+1 as computed by a previous
@@ -32,7 +44,8 @@ class Sem:
             self.isort = z3.RealSort()
         else:
             self.isort = z3.BitVecSort(width)
-        self.defined = []           # list of Bool terms that must hold for the evaluation to be defined / in bound
+        self.defined = _Guarded(self)  # Bool terms that must hold for the evaluation to be defined / in bound
+        self.guard = None           # optional path condition under which the current operations execute
         self.ranges = []            # range constraints of declared variables / uninterpreted applications
         self.int_vars = []
         self._mag = {}              # term id -> magnitude bound (python int) ; None = unbounded
